@@ -223,7 +223,7 @@ def run(chk):
                     tl[ln - 1] += rng.choice([" ; é", " ; ünï ✓", "\t;* 𝄞 *;", " ; →"])
             text = "\n".join(tl)
         # data elements whose text is known to the generator, in forms whose span the parser assembles from parts: short slices
-        # (finding F67, repaired: `7`8` was listed as "`8"), slices, concatenations, and operands in parentheses (finding F80, open)
+        # (finding F67, repaired: `7`8` was listed as "`8"), slices, concatenations, and operands in parentheses (finding F80, repaired)
         tail_elems = []
         if rng.random() < 0.5:
             tail_elems = rng.sample(["7`8", "0x3c5[11:4]", "3`4 @ 1`4", "le(0x12)", "1 + 2`8", "(1 + 2)", "2 * (1 + 2)", "(1 + 2) * 2"], 3)
